@@ -51,7 +51,12 @@ fn gen_case(seed: u64, tier: Tier) -> Case {
 	// long runs: more source frames are consumed than the streaming sound's ring buffer
 	// (16384 slots) holds, so its read and write positions wrap around
 	let long = rng.chance(0.03);
+	let long_chunk = *rng.pick(&[128usize, 256, 500, 1000, 1021]);
+	// (a third of the long runs end exactly where the decoder's push that fills the ring is also
+	// the last frame of the audio: 16383 frames plus a whole number of callbacks)
+	let long_edge = long && rng.chance(0.35);
 	let len = match rng.below(10) {
+		_ if long_edge => 16_383 + rng.usize_below(12) * long_chunk,
 		_ if long => {
 			if rng.chance(0.5) {
 				rng.urange(17_000, 45_000)
@@ -72,7 +77,7 @@ fn gen_case(seed: u64, tier: Tier) -> Case {
 			amp: 0.9,
 		},
 	};
-	let slice = if rng.chance(0.3) && len > 0 {
+	let slice = if !long_edge && rng.chance(0.3) && len > 0 {
 		let a = rng.usize_below(len);
 		Some((a, rng.urange(a, len)))
 	} else {
@@ -87,7 +92,9 @@ fn gen_case(seed: u64, tier: Tier) -> Case {
 			Pos::Secs(i as f64 / sample_rate as f64)
 		}
 	};
-	let loop_region = if long && len < 17_000 {
+	let loop_region = if long_edge {
+		None
+	} else if long && len < 17_000 {
 		Some(RegionSpec {
 			start: Pos::Samples(rng.usize_below(n.max(2) / 2)),
 			end: None,
@@ -106,6 +113,7 @@ fn gen_case(seed: u64, tier: Tier) -> Case {
 		None
 	};
 	let rate = match rng.below(10) {
+		_ if long_edge => 1.0,
 		_ if long => *rng.pick(&[1.0, 1.0, 1.7, 2.0]),
 		0..=3 => 1.0,
 		4 => 0.0,
@@ -115,14 +123,14 @@ fn gen_case(seed: u64, tier: Tier) -> Case {
 		_ => rng.frange(0.0, 3.0),
 	};
 	let settings = SoundSettingsSpec {
-		start: if rng.chance(0.8) { StartSpec::Immediate } else { StartSpec::Delayed(rng.frange(0.0, 0.003)) },
-		start_position: if rng.chance(0.5) { Pos::Samples(0) } else { pos(&mut rng) },
+		start: if long_edge || rng.chance(0.8) { StartSpec::Immediate } else { StartSpec::Delayed(rng.frange(0.0, 0.003)) },
+		start_position: if long_edge || rng.chance(0.5) { Pos::Samples(0) } else { pos(&mut rng) },
 		loop_region,
 		reverse: false,
 		volume: Val::Fixed(Db(*rng.pick(&[0.0f32, -6.0, -20.0, 3.0, -60.0]))),
 		rate: Val::Fixed(Rate(rate)),
 		panning: Val::Fixed(Pan(*rng.pick(&[0.0f32, 0.0, -1.0, 1.0, 0.3]))),
-		fade_in: if rng.chance(0.2) { Some(gen_tween(&mut rng)) } else { None },
+		fade_in: if !long_edge && rng.chance(0.2) { Some(gen_tween(&mut rng)) } else { None },
 	};
 	let decoder = DecoderSpec {
 		data,
@@ -140,6 +148,7 @@ fn gen_case(seed: u64, tier: Tier) -> Case {
 	};
 	let device_rate = if long || rng.chance(0.6) { sample_rate } else { *rng.pick(&[8000u32, 44_100, 48_000, 96_000]) };
 	let budget = match tier {
+		_ if long_edge => len + 4 * long_chunk,
 		_ if long => rng.urange(17_500, 36_000),
 		Tier::Quick => 700,
 		Tier::Thorough => 2500,
@@ -149,7 +158,7 @@ fn gen_case(seed: u64, tier: Tier) -> Case {
 	let mode = rng.below(3);
 	while total < budget {
 		let c = match mode {
-			_ if long => *rng.pick(&[128usize, 500, 1000, 1021]),
+			_ if long => long_chunk,
 			0 => rng.urange(1, 16),
 			1 => *rng.pick(&[1usize, 7, 64, 128]),
 			_ => rng.urange(1, 200),
